@@ -41,6 +41,10 @@ PROPS.update({
             'level_text': 'For all pairs of formats with n_word<=W (n_frac 0..n_word) and every code pair with non-zero divisor TLC checks that the transcribed algorithms satisfy: quotient is the floor or ceiling neighbour on the result grid and never overflows the optimal format, x//y is floor(x/y), x%y = x - y*floor(x/y) with the divisor sign; every pair is executed on the real code (/, //, %; raw and repr; trunc/around/floor) and the relations plus (x//y)*y + x%y = x are evaluated by TLC on the observed codes.',
             'level_note': _AR_NOTE},
 })
+PROPS['C19'] = {'module': 'wide',
+    'technique': 'TLC model check of BigInt against native integers and of the growth-rule lemma + TLC trace validation over BigInt of seeded optimal + - * on operand words 2..70 (results to 256 bits) and of Python integers up to 2^1000 stored into 1..52-bit formats',
+    'level_text': 'The property lives on 53..256-bit quantities, beyond an exhaustive small world: TLC checks the limb arithmetic used by the judge against native integers and re-checks the exact/never-overflows lemma on all small format pairs; then every seeded event of the real code (extreme, near-extreme and random operand codes; scalars, arrays, expression chains; big Python integers through constructor/call/set_val/indexed assignment) is judged by TLC: result format = growth rule, value exact by limb comparison, no flag; stored integer = OVERFLOW(ROUND(v*2^n_frac)) with exact flags.',
+    'level_note': _AR_NOTE + ' Sampling only (no exhaustive world at these widths); the dtype decision rules are not modelled as such.'}
 
 NOT_APPLICABLE = {}
 
